@@ -261,9 +261,12 @@ class K:
                     env.run(until=t)
                     self.L("stopped", i)
             n = 0
-            while env.peek() < INF:
+            while True:
                 self.stepno += 1
-                env.step()
+                try:
+                    env.step()       # (not guarded by peek(): an occurrence scheduled for t = inf is still an occurrence)
+                except EmptySchedule:
+                    break
                 n += 1
                 if n > max_steps:
                     self.bad.append(("noraise", "livelock", "more than %d steps" % max_steps))
